@@ -278,12 +278,12 @@ PROPS['C09'] = {
 PROPS['C04'] = {
     'level': 'proof',
     'technique': 'Lean 4 octet-level models of every decoding entry point of the statement (certificate, CRL, manifest / ROA / ASPA / generic signed object, RTA, TAL, public key, both CSR types, identity certificate, signed protocol message; relaxed mode through a mode-parametrized copy of the model generated from the DER model\'s text and proved equal to it at ber = false) as total functions, theorems that whatever a decoder accepts satisfies what the later unwrap()/panic! sites of accessors and iterators need, and a correspondence run that compares model and library on accept/reject and every field for structure-aware mutants of every object kind, under catch_unwind, a hang watchdog and a counting allocator',
-    'claim': 'Lean 4 proofs on the models: every decoder model is a total function (value or refusal for every octet string, loops bounded by the input length; the skip machine leaves a proper suffix and is independent of its loop counter); for every octet string a decoder accepts the later unwrap()/panic! sites are unreachable: manifest FileListIter / iter_uris, ROA / ASPA / CRL iterators (capture-iterate parity), Crl::contains after Crl::decode, verify_not_revoked after SignedMessage::decode, SignedAttrs::encode_verify after a strict or relaxed decode (relaxed_encode_verify_cannot_panic), asn_count; RTA: the three resource sets are canonical chains and every embedded CRL went through the counting pass (rta_octets_accessors_cannot_fail); CSR: the unwrapping accessors have their values (csr_octets_profile); TAL: every URI is valid for its scheme, the key decodes, prefer_https only reorders (tal_octets_spec); the strict decoders are the ber = false instance of the mode-parametrized model (strict_is_the_der_instance, 57 generated equalities + readers_at_der); in EITHER mode a decoded manifest / ROA / ASPA object can be walked (file list, URIs, both prefix lists, provider set: typed_objects_accessors_either_mode), a decoded signed message\'s revocation list can be walked, its attributes parse with the protocol content type and encode_verify exists (sigmsg_octets_cannot_panic_either_mode), a decoded signed object\'s attributes parse to the returned values, encode_verify exists and the embedded certificate\'s resources are canonical chains (sigobj_octets_either_mode), the skip machine leaves a proper suffix and is independent of its counter (skip_machine_either_mode) - 35 DER lemmas converted with their proof scripts by the generator; relaxed mode extends strict mode: every octet string a strict decoder accepts (certificate, signed object with or without the typed content check, identity certificate, signed message) is accepted by the relaxed decoder with the same result (relaxed_extends_strict, 48 generated lemmas over the reader-level der_values_are_read_in_ber). Partial: that the LIBRARY neither panics nor exceeds the resource bound on the same octets is observed on every case (catch_unwind, watchdog, allocator), not proved - bcder, base64 and aws-lc internals are not modelled beyond what the readers above say; the re-encoding of relaxed-mode values is a recorded finding.',
-    'note': 'Models: Model/CertDer, CmsDer, CrlDer, SigMsgDer, CsrDer, RtaDer, Tal, Ber + Gen/BerModel (regenerated from the DER model text on every run, with Gen/BerEq: fooM false = foo for all 57 definitions). One finding is recorded as known (see KNOWN_FINDINGS.txt): re-encoding any value decoded in relaxed mode panics inside bcder (Mode::Der requested for Mode::Ber captures). Time is bounded only by the generous watchdog, never by a wall-clock threshold.',
+    'claim': 'Lean 4 proofs on the models: every decoder model is a total function (value or refusal for every octet string, loops bounded by the input length; the skip machine leaves a proper suffix and is independent of its loop counter); for every octet string a decoder accepts the later unwrap()/panic! sites are unreachable: manifest FileListIter / iter_uris, ROA / ASPA / CRL iterators (capture-iterate parity), Crl::contains after Crl::decode, verify_not_revoked after SignedMessage::decode, SignedAttrs::encode_verify after a strict or relaxed decode (relaxed_encode_verify_cannot_panic), asn_count; RTA: the three resource sets are canonical chains and every embedded CRL went through the counting pass (rta_octets_accessors_cannot_fail); CSR: the unwrapping accessors have their values (csr_octets_profile); TAL: every URI is valid for its scheme, the key decodes, prefer_https only reorders (tal_octets_spec); the strict decoders are the ber = false instance of the mode-parametrized model (strict_is_the_der_instance, 59 generated equalities + readers_at_der); in EITHER mode a decoded manifest / ROA / ASPA object can be walked (file list, URIs, both prefix lists, provider set: typed_objects_accessors_either_mode), a decoded signed message\'s revocation list can be walked, its attributes parse with the protocol content type and encode_verify exists (sigmsg_octets_cannot_panic_either_mode), a decoded signed object\'s attributes parse to the returned values, encode_verify exists and the embedded certificate\'s resources are canonical chains (sigobj_octets_either_mode), the skip machine leaves a proper suffix and is independent of its counter (skip_machine_either_mode) - 34 DER lemmas converted with their proof scripts by the generator; relaxed mode extends strict mode: every octet string a strict decoder accepts (certificate, signed object with or without the typed content check, identity certificate, signed message) is accepted by the relaxed decoder with the same result (relaxed_extends_strict, 48 generated lemmas over the reader-level der_values_are_read_in_ber). Partial: that the LIBRARY neither panics nor exceeds the resource bound on the same octets is observed on every case (catch_unwind, watchdog, allocator), not proved - bcder, base64 and aws-lc internals are not modelled beyond what the readers above say; the re-encoding of relaxed-mode values is a recorded finding.',
+    'note': 'Models: Model/CertDer, CmsDer, CrlDer, SigMsgDer, CsrDer, RtaDer, Tal, Ber + Gen/BerModel (regenerated from the DER model text on every run, with Gen/BerEq: fooM false = foo for all 59 definitions). One finding is recorded as known (see KNOWN_FINDINGS.txt): re-encoding any value decoded in relaxed mode panics inside bcder (Mode::Der requested for Mode::Ber captures). Time is bounded only by the generous watchdog, never by a wall-clock threshold.',
     'shards': {'quick': 8, 'thorough': 16},
     'budget': {'quick': 900, 'thorough': 10800},
     'rule': 'per run about 34k (thorough 300k) decoder cases compared field by field with the models: certd 7.4k, cmsd 6.3k, crld 2.3k, idcd 1.1k, smsgd 2.6k, csrd 1.6k (both request types, 60 hand-made extension / attribute / envelope variations), keyd 0.9k, tald 0.3k (50 hand-made locators: comment lines, line ends, URI shapes, Base64 padding and unused bits), rtad 1.4k (five library-built attestations with 0-3 certificates, CRLs, 1-3 signers; 110 hand-made variations), relaxed mode cmsdr 4.5k + smsgdr 2.1k (every node of every seed object with every BER liberty it can take one at a time - indefinite length, over-long length, over-long end-of-contents, constructed strings flat and nested, other truth values, set unused bits, indefinite primitive -, random mixes at four rates, liberties on top of the hand-made strict variations, mutants). dec: 37 valid seed objects x 400 (thorough 4000) mutants each through all 19 entry points with every accessor and the re-encoding - since session 10 each of these 27k (270k) cases is also put to the decoder model of its entry point and accept / reject must agree -, every valid object through every other entry point, random inputs, nesting bombs, indefinite and 4 GiB lengths, empty input; peak heap below 64*len + 1 MiB, hangs caught by the watchdog.',
-    'trusted_base': ['bcder / aws-lc / base64 internals beyond the modelled readers (explored, not modelled)', 'the counting allocator and catch_unwind of the harness', 'tools/gen_ber_model.py (textual rewriting of the DER model and of 35 lemma proofs; its output is checked by Lean - a wrong rewriting fails to compile or to prove - and the generated model is compared with the library)'],
+    'trusted_base': ['bcder / aws-lc / base64 internals beyond the modelled readers (explored, not modelled)', 'the counting allocator and catch_unwind of the harness', 'tools/gen_ber_model.py (textual rewriting of the DER model and of 34 lemma proofs; its output is checked by Lean - a wrong rewriting fails to compile or to prove - and the generated model is compared with the library)'],
     'assumptions': ['a stack overflow or abort would kill the harness process and is reported as a crashed shard'],
 }
 
